@@ -331,6 +331,21 @@ class ParseContext:
 
     if inspect.isfunction(fn_or_cls) and inspect.isclass(path_attrs[-1]):  # pytype: disable=not-supported-yet
       self._register(attr_names[:-1], attr_values[:-1])
+      if original is None:
+        # Registered subclasses inherit the method: re-register them too, so
+        # that their instances see its bindings as well.
+        for cls, sub in list(_INVERSE_REGISTRY.items()):
+          if (inspect.isclass(cls) and cls is not path_attrs[-1] and
+              issubclass(cls, path_attrs[-1]) and
+              getattr(cls, fn_or_cls.__name__, None) is fn_or_cls):
+            _make_configurable(
+                cls,
+                name=sub.name,
+                module=sub.module,
+                allowlist=sub.allowlist,
+                denylist=sub.denylist,
+                import_source=sub.import_source,
+                avoid_class_mutation=True)
 
     return _INVERSE_REGISTRY[fn_or_cls]
 
@@ -492,6 +507,12 @@ def _find_registered_methods(cls, selector):
   for name, method in inspect.getmembers(cls, predicate=is_method):
     if method in _INVERSE_REGISTRY:
       method_info = _INVERSE_REGISTRY[method]
+      if method_info.is_method and method_info.module != selector:
+        # Already claimed by another registered class (e.g., inherited from a
+        # registered base class): one function is one configurable, and keeps
+        # the selector of the class that claimed it first.
+        registered_methods[name] = method_info.wrapper
+        continue
       if method_info.module not in (method.__module__, selector):
         raise ValueError(
             f'Method {name} in class {cls} ({selector}) was registered with a '
